@@ -389,10 +389,10 @@ def _from_bytes(ip, fv, args, kwargs, pure):
     order = a[1] if len(a) > 1 else kwargs.get("byteorder", "big")
     if kwargs.get("signed"):
         raise Unsupported("from_bytes signed")
-    if isinstance(b, (bytes, list)) and order in ("big", "little"):
+    if (isinstance(b, bytes) or (isinstance(b, list) and all(isinstance(x, int) and not isinstance(x, bool) for x in b))) and order in ("big", "little"):
         try:
             return int.from_bytes(bytes(b), order)
-        except (ValueError, TypeError):
+        except ValueError:
             raise Raise("ValueError")
     t = Bt(b)
     if order == "little":
